@@ -559,6 +559,79 @@ fn run_rules(vname: &'static str, rules: AuthorizationRules, thorough: bool) -> 
     (n, f_ref, f_det, f_single, f_panic, nontrivial, samples)
 }
 
+/// "events with and without a power-level ancestor": forks that start before the room has a power-levels event, so that some
+/// conflicted events have no power-levels event among their (transitive) auth events - mainline position "infinity", which
+/// the specification orders before every event that has one - while others do
+fn run_early(vname: &'static str, rules: AuthorizationRules) -> (u64, Vec<Value>, Vec<Value>) {
+    let (mut n, mut f_ref, mut f_panic) = (0u64, vec![], vec![]);
+    let pl_a = pl_of(&[(A, 100)]);
+    let pl_b = pl_of(&[(A, 100), (B, 10)]);
+    type E = (&'static str, &'static str, &'static str, Value, Option<Pl>);
+    let t = |x: &'static str| -> E { (x, "m.room.topic", "", json!({"topic": x}), None) };
+    let name = |x: &'static str| -> E { (x, "m.room.name", "", json!({"name": x}), None) };
+    let jr = |x: &'static str, v: &str| -> E { (x, "m.room.join_rules", "", json!({"join_rule": v}), None) };
+    let pl1 = || -> E { ("pl1", "m.room.power_levels", "", pl_a.json(), Some(pl_a.clone())) };
+    let pl2 = || -> E { ("pl2", "m.room.power_levels", "", pl_b.json(), Some(pl_b.clone())) };
+    let shapes: Vec<(&str, Vec<Vec<E>>)> = vec![
+        ("topic without / topic with a power-levels ancestor", vec![vec![t("t1")], vec![pl1(), t("t2")]]),
+        ("topic with / topic without a power-levels ancestor", vec![vec![pl1(), t("t1")], vec![t("t2")]]),
+        ("topic without / topic under the second power-levels event", vec![vec![t("t1")], vec![pl1(), pl2(), t("t2")]]),
+        ("topic and name without / topic with a power-levels ancestor", vec![vec![t("t1"), name("n1")], vec![pl1(), t("t2"), name("n2")]]),
+        ("join rules and topic without / with a power-levels ancestor", vec![vec![jr("j1", "public"), t("t1")], vec![pl1(), jr("j2", "invite"), t("t2")]]),
+        ("neither fork has a power-levels event", vec![vec![t("t1")], vec![t("t2"), name("n2")]]),
+        ("both forks have their own power-levels event", vec![vec![pl1(), t("t1")], vec![pl2(), t("t2")]]),
+        ("three forks: none / one / two power-levels events", vec![vec![t("t1")], vec![pl1(), t("t2")], vec![pl2(), name("n3"), t("t3")]]),
+    ];
+    for (label, shape) in &shapes {
+        for tsmode in 0..3u8 {
+            let mut b = Builder { w: World { events: BTreeMap::new() }, n: 0 };
+            let mut st = BTreeMap::new();
+            let mut tip = String::new();
+            for (nm, s, ty, k, c) in [("create", A, "m.room.create", "", json!({"creator": A})), ("a-join", A, "m.room.member", A, json!({"membership": "join"}))] {
+                let (id, st2) = b.add(&rules, &tip, &st, nm, s, ty, k, c, None, true).unwrap();
+                tip = id;
+                st = st2;
+            }
+            let mut tips = vec![];
+            for fork in shape {
+                let (mut ft, mut fs) = (tip.clone(), st.clone());
+                for (nm, ty, k, c, p) in fork.iter().cloned() {
+                    let (id, st2) = b.add(&rules, &ft, &fs, nm, A, ty, k, c, p, true).unwrap();
+                    ft = id;
+                    fs = st2;
+                }
+                tips.push(fs);
+            }
+            let total = b.w.events.len() as u64;
+            for e in b.w.events.values_mut() {
+                e.ts = match tsmode {
+                    0 => e.ts,
+                    1 => 5,
+                    _ => if e.ts > 2 { total + 3 - e.ts } else { e.ts },
+                };
+            }
+            let w = b.w.clone();
+            let pdus: HashMap<OwnedEventId, Pdu> = w.events.values().map(|e| { let p = pdu_ts(&e.id, &e.sender, &e.ty, Some(&e.state_key), &e.content, &e.prev, &e.auth, "!r:s", e.ts); (p.event_id.clone(), p) }).collect();
+            n += 1;
+            let want = resolve_ref(&rules, &w, &tips);
+            let describe = |got: &Value| {
+                let events: Vec<Value> = w.events.values().map(|e| json!({"event_id": e.id, "type": e.ty, "auth_events": e.auth, "origin_server_ts": e.ts})).collect();
+                json!({"rules": vname, "early_forks": label, "timestamps": (["increasing", "all equal", "reversed"][tsmode as usize]), "events": events,
+                    "resolve_returns": got, "state_resolution_v2_gives": show(&want)})
+            };
+            match real_resolve(&rules, &pdus, &w, &tips) {
+                Err(e) => fail(if e == "panic" { &mut f_panic } else { &mut f_ref }, describe(&json!(e))),
+                Ok(got) => {
+                    if got != want {
+                        fail(&mut f_ref, describe(&show(&got)));
+                    }
+                }
+            }
+        }
+    }
+    (n, f_ref, f_panic)
+}
+
 /// every DAG on up to 5 nodes (edges i -> j for j < i: j must come first), keys (power, ts) from a 2x2 domain
 fn run_topo() -> (u64, Vec<Value>) {
     let (mut n, mut f) = (0u64, vec![]);
@@ -611,6 +684,7 @@ pub fn run(tier: &str) -> Report {
         vec![("V6", AuthorizationRules::V6), ("V11", AuthorizationRules::V11)]
     };
     let handles: Vec<_> = versions.into_iter().map(|(vn, r)| std::thread::spawn(move || run_rules(vn, r, thorough))).collect();
+    let early: Vec<_> = [("V1", AuthorizationRules::V1), ("V6", AuthorizationRules::V6), ("V11", AuthorizationRules::V11)].into_iter().map(|(vn, r)| std::thread::spawn(move || run_early(vn, r))).collect();
     let topo_h = std::thread::spawn(run_topo);
     let (mut n, mut f_ref, mut f_det, mut f_single, mut f_panic) = (0u64, vec![], vec![], vec![], vec![]);
     let (mut nontrivial, mut samples) = (0u64, vec![]);
@@ -628,6 +702,18 @@ pub fn run(tier: &str) -> Report {
             Err(_) => fail(&mut f_panic, json!({"observed": "enumeration thread panicked"})),
         }
     }
+    let mut n_early = 0u64;
+    for h in early {
+        match h.join() {
+            Ok((k, a, d)) => {
+                n_early += k;
+                for x in a { fail(&mut f_ref, x); }
+                for x in d { fail(&mut f_panic, x); }
+            }
+            Err(_) => fail(&mut f_panic, json!({"observed": "enumeration thread (early forks) panicked"})),
+        }
+    }
+    n += n_early;
     let (nt, f_topo) = topo_h.join().unwrap_or((0, vec![json!({"observed": "topological sort enumeration panicked"})]));
     *super::EXTRA.lock().unwrap() = Some((
         nontrivial,
@@ -635,7 +721,7 @@ pub fn run(tier: &str) -> Report {
         samples,
     ));
     Report {
-        bound: format!("{n} fork scenarios (base room + 2..3 forks of 1..2 events from a 13-event menu, each valid in its fork) x timestamp assignments, for {} authorization rule sets; {nt} DAGs with keys for the topological sort (all DAGs on <= 4 nodes, 1/16 of those on 5)", if thorough { 4 } else { 2 }),
+        bound: format!("{n} fork scenarios (base room + 2..3 forks of 1..2 events from a 17-event menu, each valid in its fork) x timestamp assignments, for {} authorization rule sets, of which {n_early} are early forks (8 shapes starting before the first power-levels event, so that conflicted events with and without a power-levels ancestor meet) x 3 timestamp assignments x 3 rule sets; {nt} DAGs with keys for the topological sort (all DAGs on <= 4 nodes, 1/16 of those on 5)", if thorough { 4 } else { 2 }),
         cases: n + nt,
         obligations: vec![
             ("resolved_state_is_the_state_resolution_v2_result", n, f_ref),
